@@ -211,13 +211,9 @@ where
                 // see the corresponding section in the coinduction chapter:
                 // https://rust-lang.github.io/chalk/book/recursive/coinduction.html#mixed-co-inductive-and-inductive-cycles
                 if self.stack.mixed_inductive_coinductive_cycle_from(depth) {
-                    #[cfg(chalk_verif)]
-                    verif::goal_value("RMixed", goal, &"");
                     return solver_stuff.error_value();
                 }
             }
-            #[cfg(chalk_verif)]
-            verif::graph_hit(goal, self.search_graph[dfn].stack_depth.is_some(), &self.search_graph[dfn].solution);
 
             minimums.update_from(self.search_graph[dfn].links);
 
@@ -227,6 +223,8 @@ where
                 "solve_goal: cycle detected, previous solution {:?}",
                 previous_solution,
             );
+            #[cfg(chalk_verif)]
+            verif::graph_hit(goal, self.search_graph[dfn].stack_depth.is_some(), &previous_solution);
             previous_solution
         } else {
             // Otherwise, push the goal onto the stack and create a table.
